@@ -381,14 +381,8 @@ OPS = [("read", 1, True), ("read", 2, True), ("read", 4, True), ("read", 1, Fals
 def geometries(tier):
     if tier == "quick":
         return [(0, 0, 1), (1, 0, 2), (0, 1, 2)]
-    gs = []
-    for ib in (0, 1, 2):
-        for bb in (0, 1, 2):
-            for ways in (1, 2, 4):
-                if ib + bb + (ways > 1) + (ways > 2) <= 4:
-                    gs.append((ib, bb, ways))
-    gs.append((1, 0, 3))
-    return gs
+    # thorough: larger index/block fields, three ways (LRU only) and four ways
+    return [(0, 0, 1), (1, 0, 2), (0, 1, 2), (1, 1, 1), (1, 1, 2), (2, 0, 1), (0, 2, 1), (1, 0, 3), (0, 0, 4)]
 
 
 def step_jobs(tier, props, module):
@@ -411,7 +405,7 @@ def step_jobs(tier, props, module):
                             "cost": size * size * (3 if kind == "wt" else 1),
                             "validate_every": 1 if size <= 2 else 5,
                             "timeout_ms": 20000,
-                            "optional": tier == "thorough" and size > 8,
+                            "optional": tier == "thorough" and (ways >= 3 or size >= 8),
                         }
                     )
     return out
@@ -558,7 +552,7 @@ def history_jobs(tier, props, module):
 # ---------------------------------------------------------------------------------------------------
 
 DCFG = [("wb", "lru", 0, 0, 1), ("wt", "lru", 1, 0, 2), ("wb", "plru", 0, 1, 2), ("wt", "plru", 0, 0, 2)]
-MEM_OPS = {"lw", "lb", "sw", "sb", "lh", "lhu", "lbu", "sh"}
+MEM_OPS = {"lw", "lb", "sw", "sb", "lh", "lhu", "lbu", "sh"}  # every load/store class
 
 
 def h_prog_dcache(e, mnems, cfg, props):
@@ -645,6 +639,9 @@ def prog_jobs(tier, seed, props, module):
                 continue
             cfg = DCFG[i % len(DCFG)]
             out.append(dict(common, label="prog-%s-%s" % (",".join(sk), "".join(map(str, cfg))), args={"mnems": sk, "cfg": list(cfg), "props": sorted(props)}, cost=15 * L, validate_every=3))
+    for m_ in ("lb", "lh", "lw", "lbu", "lhu", "sb", "sh", "sw"):
+        for ci, cfg in enumerate(DCFG[:2]):
+            out.append(dict(common, label="prog1-%s-%s" % (m_, "".join(map(str, cfg))), args={"mnems": [m_], "cfg": list(cfg), "props": sorted(props)}, cost=8, validate_every=2))
     for sk in (["sw", "lw", "lw"], ["sb", "lw", "beq"], ["lw", "sw", "jal"], ["sw", "sw", "lb"]):
         for cfg in DCFG[:2] if tier == "quick" else DCFG:
             out.append(dict(common, label="prog-%s-%s" % (",".join(sk), "".join(map(str, cfg))), args={"mnems": sk, "cfg": list(cfg), "props": sorted(props)}, cost=60, validate_every=5, optional=True))
